@@ -15,7 +15,8 @@ NoObs == [x \in {} |-> 0]
 InitState == [heap |-> EmptyHeap, obs |-> NoObs,
               ref |-> NoObs,        \* register of a CachedSource -> register holding the wrapped tree
               cache |-> NoObs,      \* cache id -> {<<columns, final, "map" | "stream">>}
-              eqs |-> NoObs]        \* <<a, b>> -> last answer of a == b
+              eqs |-> NoObs,        \* <<a, b>> -> last answer of a == b
+              stored |-> NoObs]     \* <<cache object, key>> -> identity of the cached map
 
 Put(f, k, v) == [x \in DOMAIN f \cup {k} |-> IF x = k THEN v ELSE f[x]]
 
@@ -50,6 +51,11 @@ CacheAfter(cache, r, t) ==
              IF x = t.cid THEN (IF x \in DOMAIN cache THEN cache[x] ELSE {}) \cup {e}
              ELSE cache[x]]
 
+(* events that report the identity of the map stored for an option set      *)
+ReportsStored(r) ==
+  r.id \in {"cached.map.hit!", "cached.map.inserted!", "cached.stream.occupied",
+            "cached.stream.fill"}
+
 (* actions                                                                  *)
 Forget(obs, reg) == [k \in {x \in DOMAIN obs : x[1] # reg} |-> obs[k]]
 ForgetEq(eqs, reg) == [k \in {x \in DOMAIN eqs : x[1] # reg /\ x[2] # reg} |-> eqs[k]]
@@ -76,6 +82,8 @@ NextState(r, st) ==
                  ELSE [x \in DOMAIN t \cup {"adds"} |->
                          IF x = "adds" THEN <<a>> ELSE t[x]]]
     [] r.op = "eq" /\ Ok(r) -> [st EXCEPT !.eqs = Put(@, <<r.a, r.b>>, r.out.eq)]
+    [] r.op = "ev" /\ ReportsStored(r) /\ <<r.obj, r.key>> \notin DOMAIN st.stored ->
+         [st EXCEPT !.stored = Put(@, <<r.obj, r.key>>, r.ident)]
     [] r.op \in {"buffer", "size"} /\ Ok(r) -> [st EXCEPT !.obs = Put(@, ObsKey(r), r.out)]
     [] r.op = "law" /\ r.law = "ref" ->
          [st EXCEPT !.ref = [x \in DOMAIN @ \cup ToSet(r.cached) |->
@@ -617,6 +625,24 @@ C19Checks(r) ==
        \cup {<<"C19", r.probes.sites[i][1]>> : i \in 1..Len(r.probes.sites)}
 
 -----------------------------------------------------------------------------
+(* C18: concurrent readers.  Records with a `tid` are returns of calls made *)
+(* by scheduled threads; "ev" records are the shared-state accesses in the  *)
+(* order the scheduler released them.  Events that report the identity of   *)
+(* the map STORED for an option set feed the write-once monitor.            *)
+C18Checks(r, st) ==
+  CASE r.op = "ev" ->
+         IF ReportsStored(r) /\ <<r.obj, r.key>> \in DOMAIN st.stored
+           THEN {<<"C18", "cached_value_never_replaced">>,
+                 <<"C19", "cached_map_borrow_stays_valid">>} ELSE {}
+    [] r.op = "conc_end" -> {<<"C18", "no_deadlock">>, <<"DRIFT", "schedule_replayed">>}
+    [] "tid" \in DOMAIN r /\ "r" \in DOMAIN r /\ r.r \in DOMAIN st.ref ->
+         IF \/ r.op \in {"source", "buffer", "size"} /\ HasPure(r, st, <<"source">>)
+            \/ r.op = "map" /\ HasPure(r, st, <<"map", r.columns>>)
+            \/ r.op = "stream" /\ ~r.final /\ HasPure(r, st, <<"stream", r.columns, FALSE>>)
+           THEN {<<"C18", "answer_is_sequential">>} ELSE {}
+    [] OTHER -> {}
+
+-----------------------------------------------------------------------------
 (* which predicates apply to a record                                       *)
 TreeOf(r, st) == st.heap[r.r]
 
@@ -625,7 +651,8 @@ Checks(r, st) ==
   ELSE IF r.op = "died" THEN {<<"C17", "no_abort_or_hang">>}
   ELSE IF r.oc = "harness" THEN {<<"TOOL", "harness_error">>}
   ELSE IF ~Ok(r) THEN {<<"C17", "no_panic">>} \cup C19Checks(r)
-  ELSE {<<"C17", "no_panic">>} \cup C10Checks(r, st) \cup C14Checks(r, st) \cup C19Checks(r) \cup
+  ELSE {<<"C17", "no_panic">>} \cup C10Checks(r, st) \cup C14Checks(r, st) \cup C19Checks(r)
+       \cup C18Checks(r, st) \cup
     CASE r.op = "source" ->
            {<<"C07", "source_is_text">>} \cup
            (IF "replace" \in Kinds(TreeOf(r, st))
@@ -801,6 +828,14 @@ Holds(c, r, st) ==
     [] c[1] \in {"C13", "C06", "C08"} /\ r.op = "law" -> LawHolds(c, r, st)
     [] c[1] = "C04" -> C04Holds(c, r, t)
     [] c[1] = "C10" -> C10Holds(c, r, st)
+    [] c = <<"C18", "answer_is_sequential">> ->
+         C10Holds(<<"C10", IF r.op \in {"source", "buffer", "size"} THEN r.op ELSE "x">>, r, st)
+    [] c = <<"C18", "cached_value_never_replaced">> -> st.stored[<<r.obj, r.key>>] = r.ident
+    [] c = <<"C19", "cached_map_borrow_stays_valid">> -> st.stored[<<r.obj, r.key>>] = r.ident
+    [] c = <<"C18", "no_deadlock">> -> r.outcome # "deadlock"
+    [] c = <<"DRIFT", "schedule_replayed">> ->
+         /\ r.outcome = "completed"
+         /\ r.schedule_len > 0 => (r.scheduled = r.schedule_len /\ r.extra = 0)
     [] c = <<"C19", "preconditions_hold">> -> r.probes.failed = <<>>
     [] c[1] = "C19" -> c[2] \notin ToSet(r.probes.failed)
     [] c[1] = "C16" -> C16Holds(c, r)
